@@ -2,3 +2,4 @@
 import Thanos.Driver.Stores
 import Thanos.Props.C15
 import Thanos.Props.C08
+import Thanos.Props.C09
